@@ -228,6 +228,8 @@ def multi_document(faults):
     if "badident_later" in f:
         # the invalid identifier stands on a later line than the tag of its element (the diagnostic names the token's line)
         lines += meas("m_badident_later", extra=["ECU_ADDRESS 0x10", "REF_MEMORY_SEGMENT 9segment"])
+        # ... also for a parameter of the block itself (its context is the line of /begin)
+        lines += ["    /begin MEASUREMENT", '      9name_on_a_later_line', '      "" UBYTE NO_COMPU_METHOD', "      1 1.0 0 255", "    /end MEASUREMENT"]
     if "longstr_later" in f:
         lines += meas("m_idstr_later", extra=["ECU_ADDRESS 0x20", "DISPLAY_IDENTIFIER d1", "PHYS_UNIT unquoted_unit"])
     if "toonew_block" in f:
